@@ -17,7 +17,8 @@
 //	TRACE <event>|<event>|... END <done|deadlock|aborted> CH c:<choices taken>
 //
 // where the events are vshim events (`p0 t1 lock m0`, …) interleaved with `p0 t0 B <ids>` pseudo
-// events: at that scheduling point exactly the listed live tasks were not enabled.
+// events: at that scheduling point exactly the listed live tasks were not enabled (only emitted
+// while at most 16 tasks are alive).
 // `dfs` prints one such line per explored schedule and then `DFSEND <count> <exhausted|truncated>`.
 package main
 
@@ -32,6 +33,9 @@ import (
 	"github.com/rogpeppe/go-internal/par"
 	"github.com/rogpeppe/go-internal/vshim"
 )
+
+// blocked sets are reported at scheduling points with at most this many live tasks
+const maxBlockedReport = 16
 
 // ---- choice sources
 
@@ -81,6 +85,9 @@ func (c *chooser) install(s *vshim.Sched) {
 		return c.choose(len(enabled), def, costly)
 	}
 	s.OnSched = func(s *vshim.Sched, alive, enabled []int) {
+		if len(alive) > maxBlockedReport {
+			return // large scenarios: traces without blocked-set pseudo events
+		}
 		en := map[int]bool{}
 		for _, id := range enabled {
 			en[id] = true
@@ -193,7 +200,7 @@ func runWork(f []string, c *chooser) string {
 	}
 	s := vshim.NewSched()
 	c.install(s)
-	s.MaxSteps = 20000
+	s.MaxSteps = 20000 + 40*n
 	s.SpawnProc(0, func() {
 		var w par.Work
 		if f[2] != "-" {
